@@ -246,11 +246,13 @@ def run_case(ctx, case):
     elif how == "clone":
         B = clone_of(A)
         labels.add("pair_clone")
+        notes_belong(B, A, "clone()")
     elif how == "deepcopy":
         import copy
 
         B = copy.deepcopy(A)  # Python's own way of obtaining an independent copy
         labels.add("pair_deepcopy")
+        notes_belong(B, A, "copy.deepcopy")
     else:
         data = A.read()
         constructed = snapshot.snap(A)
@@ -380,6 +382,29 @@ def run_short_array(tname, attr, chnm, length, esize, cut):
     if list(getattr(later, attr).values) != pristine or Synth(later).read() != earlier_bytes:
         raise PropertyViolation("C17.short_array.later_object", where + ": a module constructed afterwards does not start from the defaults", key="C17.short_array:" + tname)
     return True
+
+
+def notes_belong(B, A, how):
+    """The notes of a copied project lead to the copy's own patterns, project and modules - not back into the original."""
+    if type(B).__name__ != "Project":
+        return
+    a_objs = {id(x) for x in list(A.patterns) + list(A.modules) if x is not None} | {id(A)}
+    for pi, pat in enumerate(B.patterns):
+        if pat is None or type(pat).__name__ != "Pattern":
+            continue
+        for ln, line in enumerate(pat.data):
+            for tr, n in enumerate(line):
+                if n.pattern is not pat:
+                    raise PropertyViolation("C17.copy.note_owner", "%s of a project: note (%d,%d) of pattern %d of the copy has pattern %s" % (how, ln, tr, pi, "of the original" if id(n.pattern) in a_objs else repr(type(n.pattern).__name__)), key="C17.copy.note_owner")
+                if n.project is not B:
+                    raise PropertyViolation("C17.copy.note_owner", "%s of a project: note (%d,%d) of pattern %d of the copy has project %s" % (how, ln, tr, pi, "= the original" if n.project is A else "something else"), key="C17.copy.note_owner")
+                if 0 < n.module <= len(B.modules) - 1 and B.modules[n.module - 1 + 0] is not None:
+                    try:
+                        mod = n.mod
+                    except Exception:  # noqa: BLE001 - resolution rules are C14's business
+                        mod = None
+                    if mod is not None and id(mod) in a_objs:
+                        raise PropertyViolation("C17.copy.note_owner", "%s of a project: note (%d,%d) of pattern %d of the copy resolves to a module of the original" % (how, ln, tr, pi), key="C17.copy.note_owner")
 
 
 def run_gc_reuse(ctx):
